@@ -445,6 +445,14 @@ func checkC10(c *Ctx, rt *rapid.T) {
 		if v := judgeC10(c, sc); v != nil {
 			c.Fail(rt, sc, v.Class, v.Detail)
 		}
+	case mode == 23: // the report cannot be written: stdout fails like a full disk
+		w, inv, refopts := genC10Base(g, false)
+		pl := GenPlan(g, false)
+		pl.StdoutFailAt = 1 + g.PickInt([]int{0, 0, 1, 10, 100, g.Int(0, 3000, "stdoutat")}, "stdoutfail")
+		sc := &Scenario{Format: 1, Property: "C10", Engine: "A", World: w, Inv: inv, Plan: pl, Params: c10Params{Mode: "stdout", RefOpts: refopts}}
+		if v := judgeC10(c, sc); v != nil {
+			c.Fail(rt, sc, v.Class, v.Detail)
+		}
 	default: // enumeration of every fault point of a small world
 		w, inv, refopts := genC10Base(g, true)
 		sc := &Scenario{Format: 1, Property: "C10", Engine: "A", World: w, Inv: inv, Plan: Plan{Peers: map[string]*PeerPlan{}},
@@ -469,7 +477,7 @@ func checkC10(c *Ctx, rt *rapid.T) {
 
 // modeTable: 45 % random faults, 8 % invalid input, 9 % missing objects,
 // 25 % one-shot command failures, 5 % shallow / absent, 8 % enumeration, 8 % many
-// pending requests with an early death.
+// pending requests with an early death, 5 % stdout write errors.
 var modeTable = func() []int {
 	var t []int
 	add := func(mode, n int) {
@@ -484,6 +492,7 @@ var modeTable = func() []int {
 	add(17, 5)
 	add(19, 8)
 	add(21, 8)
+	add(23, 5)
 	return t
 }()
 
@@ -674,6 +683,40 @@ func judgeC10(c *Ctx, sc *Scenario) *Violation {
 			}
 			bsc := *sc
 			return runFaultedB(c, &bsc, site, rb.Stdout)
+		}
+		return nil
+	case "stdout":
+		if !verifyRoots(c, site, sc.Inv.Roots) {
+			return nil
+		}
+		res := RunA(c.T, c.H, sc, site)
+		c.Stats.AddResult(res)
+		c.Stats.Evaluations++
+		if res.Panic != "" {
+			return &Violation{"C10/panic", firstLines(res.Panic, 8)}
+		}
+		if res.Hang {
+			return &Violation{"C10/hang", "stdout write error"}
+		}
+		if res.StdoutFailed {
+			c.Stats.Nontrivial[sc.Hash()] = true
+			if !res.Failed {
+				return &Violation{"C10/exit0-with-incomplete-report", fmt.Sprintf("stdout failed with ENOSPC after %d bytes (args %q), yet the run reported success", sc.Plan.StdoutFailAt-1, sc.Inv.Args)}
+			}
+		}
+		if sc.Plan.StdoutFailAt == 1 && os.Getenv("VERIF_GITSIZER_BIN") != "" && fnv64(sc.Hash())%3 == 0 {
+			// the real binary with stdout on /dev/full
+			b := *sc
+			b.Plan = Plan{}
+			rb := RunB(&b, site, BOpts{StdoutFull: true})
+			c.Stats.CLIRuns++
+			c.Stats.FaultsFired["engineB-stdout-on-/dev/full"]++
+			if rb.Hang {
+				return &Violation{"C10/hang", "engine B with stdout on /dev/full"}
+			}
+			if !rb.Failed {
+				return &Violation{"C10/exit0-with-incomplete-report", fmt.Sprintf("engine B: stdout is /dev/full (args %q), exit status 0", sc.Inv.Args)}
+			}
 		}
 		return nil
 	case "invalid":
